@@ -430,6 +430,19 @@ def conventional_plus(r, features=None, file_shapes=False):
             hints.append([h[0] for h in hints[:2] if h[0]])
         api.info["c16_subsets"] = api.info.get("c16_subsets", []) + [h for h in hints if h and all(h)]
         knobs.add("file_shapes")
+    if r.random() < 0.5 and api.services:
+        # a service whose name extends the first service's name, with an rpc of the same name over its own types
+        s0 = api.services[0]
+        m0 = s0.proto.method[0]
+        ext_name = s0.proto.name + "Ext"
+        xreq = main.message(f"{m0.name}ExtRequest")
+        xreq.field("name", 1, "string")
+        xres = main.message(f"{m0.name}ExtResponse")
+        xres.field("note", 1, "string")
+        xs = main.service(ext_name, host=api.host)
+        xs.rpc(m0.name, xreq.fqn, xres.fqn, http=("post", "/v1/{name=exts/*}:" + m0.name[:1].lower() + m0.name[1:]), body="*")
+        api.info.setdefault("c16_subsets", []).append([f"{pkgname}.{ext_name}.{m0.name}"])
+        knobs.add("prefix_service")
     if r.random() < 0.5 and reqs:
         # a chain of enclosing closure of depth 2 or 3, in either declaration order
         add_enclosing_chain(main, pkgname, reqs[len(reqs) // 2], r.choice([2, 3]), r.random() < 0.5, tag="R")
@@ -620,6 +633,31 @@ def depref_api():
     s.rpc("CheckOut", creq.fqn, cres.fqn, http=("post", "/v1/{name=shelves/*/books/*}:checkOut"), body="*")
     s.rpc("ReturnBook", rreq.fqn, cres.fqn, http=("post", "/v1/{name=shelves/*/books/*}:return"), body="*")
     return apigen.request([dep, f], to_generate=[f.proto.name])
+
+
+def prefix_services_api():
+    """Fixed names (seeded change C16-i): two pairs of services in one package where one name is a textual prefix of the
+    other (Library / LibraryAdmin, Svc1 / Svc10) and both members have rpcs of the same names, over disjoint types."""
+    pkg = "google.example.library.v1"
+    f = File("google/example/library/v1/library.proto", pkg, deps=list(apigen.STD_DEPS))
+    hints = []
+    for short, long_ in (("Library", "LibraryAdmin"), ("Svc1", "Svc10")):
+        for sname in (short, long_):
+            item = f.message(sname + "Item")
+            kind = item.enum("Kind", ["KIND_UNSPECIFIED", "PLAIN"])
+            item.field("name", 1, "string").field("kind", 2, ("enum", kind))
+            greq = f.message(f"Get{sname}ItemRequest")
+            greq.field("name", 1, "string")
+            freq = f.message(f"Fetch{sname}ItemRequest")
+            freq.field("name", 1, "string").field("depth", 2, "int32")
+            fres = f.message(f"Fetch{sname}ItemResponse")
+            fres.field("items", 1, item.fqn, repeated=True)
+            s = f.service(sname, host="library.example.com")
+            s.rpc("Get", greq.fqn, item.fqn, http=("get", f"/v1/{{name={sname.lower()}/*}}"))
+            s.rpc("Fetch", freq.fqn, fres.fqn, http=("post", f"/v1/{{name={sname.lower()}/*}}:fetch"), body="*")
+        hints += [[f"{pkg}.{long_}.Get"], [f"{pkg}.{short}.Get"]]
+    hints.append([f"{pkg}.LibraryAdmin.Get", f"{pkg}.Svc10.Fetch"])
+    return apigen.request([f]), hints
 
 
 def dep_package_api(r):
